@@ -40,7 +40,7 @@ def _bs_in_quotes(b):
     return False
 
 
-def key_of(ops, step):
+def key_of(ops, step, why=""):
     """Signature of a failing step: the entry point and the shape of its input that matters."""
     t = ops[step - 1].split() if 0 < step <= len(ops) else ["?"]
     if t[0] == "args":
@@ -58,7 +58,7 @@ def key_of(ops, step):
         b = bytes.fromhex(t[2][1:])
         return "Process.commandLine:" + ("backslashInQuotes" if _bs_in_quotes(b) else "quoted" if b'"' in b else "plain")
     if t[0] == "spawn":
-        return "Process.spawn:form%s:env%s:streams%s" % (t[1], t[3], t[2])
+        return "Process.spawn:form%s:env%s%s" % (t[1], t[3], ":streams" + t[2] if str(why).startswith("spawn-std") else "")
     return "Process." + t[0]
 
 
@@ -72,6 +72,31 @@ def _sweep_scratch():
             shutil.rmtree(d, ignore_errors=True)
         except (ValueError, PermissionError):
             pass
+
+
+def _stats(ctx, trace):
+    """Vacuity counters: kinds of parser events, command lines inside the documented form, spawn shapes."""
+    import json
+    c = ctx.cov
+
+    def inc(k):
+        c[k] = c.get(k, 0) + 1
+    names = {0: "nonoption", 63: "unknown", 58: "missing"}
+    with open(trace) as f:
+        for line in f:
+            if '"op":"reset"' in line:
+                continue
+            e = json.loads(line)
+            if e["op"] == "args":
+                for ev in e["out"]:
+                    inc("args.event." + names.get(ev["c"], "option" + ("+value" if ev["a"] else "")))
+            elif e["op"] == "cmd":
+                inc("cmd.words=%d" % min(len(e["cargs"]), 4))
+                if 34 in e["cl"]:
+                    inc("cmd.quoted")
+            elif e["op"] == "spawn":
+                inc("spawn.form%d" % e["form"])
+                inc("spawn.streams%d" % e["streams"])
 
 
 def check_executions(ctx, binary, executions, tag, module, cfg, nproc=1, timeout=1500):
@@ -101,6 +126,7 @@ def check_executions(ctx, binary, executions, tag, module, cfg, nproc=1, timeout
             os.remove(tp)
             crashes += [(off + idx, txt, kind) for idx, txt, kind in dr.crashes]
     ctx.evaluations += n
+    _stats(ctx, trace)
     index = vlib.index_trace(trace)
     # map trace execution numbers to real execution indices: a crashed execution may have logged only its reset
     seen_keys = set(k for k, _, _ in ctx.violations)
@@ -118,6 +144,9 @@ def check_executions(ctx, binary, executions, tag, module, cfg, nproc=1, timeout
                "driver %s in execution %d: ops=%s\n%s" % (kind, idx, ops, txt[-1800:]))
     r, mism, done = vlib.validate_trace(SPECDIR, module, cfg, trace, timeout=timeout)
     ctx.add_tlc("trace:" + tag, r, must_pass=False)
+    for pr in getattr(r, "printed", []):
+        if pr.startswith('"TRACE-DONE"') and module == "CmdLineTrace":
+            ctx.cov["cmd.inside_documented_form"] = ctx.cov.get("cmd.inside_documented_form", 0) + int(pr.split(",")[-1])
     if r.violation:
         ctx.broken.append("trace spec %s: TLC error: %s" % (module, r.violation[:1200]))
     if not done and not r.broken and not r.violation:
@@ -129,7 +158,7 @@ def check_executions(ctx, binary, executions, tag, module, cfg, nproc=1, timeout
             continue
         bad.add(ex)
         ops = executions[ex]
-        report(key_of(ops, step) + ":" + str(why), "%s_mismatch_%d.ops" % (tag, ex), ["reset"] + ops[:step],
+        report(key_of(ops, step, why) + ":" + str(why), "%s_mismatch_%d.ops" % (tag, ex), ["reset"] + ops[:step],
                "Layer-1 mismatch (%s) in execution %d: ops=%s" % (why, ex, ops[:step]))
     ctx.traces += n - len(bad | crashed)
     for e in executions[:20000]:
@@ -147,7 +176,7 @@ def args_execs(ctx):
     if ctx.quick:
         one, two, three, nrand = 5, 2, 1, 6000
     else:
-        one, two, three, nrand = 6, 3, 2, 150000
+        one, two, three, nrand = 6, 4, 2, 150000
     ex = [["args " + hexs(w)] for w in strings(one, OPT_ALPHA)]
     w2 = list(strings(two, OPT_ALPHA))
     ex += [["args %s %s" % (hexs(a), hexs(b))] for a in w2 for b in w2]
@@ -169,7 +198,7 @@ def args_execs(ctx):
 
 
 def cmd_execs(ctx):
-    maxlen, nrand = (5, 500) if ctx.quick else (7, 6000)
+    maxlen, nrand = (5, 500) if ctx.quick else (8, 6000)
     ex = []
     k = 0
     for t in strings(maxlen, CMD_ALPHA):
@@ -239,6 +268,8 @@ def run(ctx):
     ctx.add_tlc("Getopt", r)
     r = vlib.tlc(SPECDIR, "GetoptImpl", "GetoptImpl.cfg" if ctx.quick else "GetoptImpl_big.cfg", workers=8, timeout=1500, xmx="6g")
     ctx.add_tlc("GetoptImpl", r)
+    r = vlib.tlc(SPECDIR, "GetoptImpl", "GetoptImpl_3.cfg", workers=8, timeout=900, xmx="4g")
+    ctx.add_tlc("GetoptImpl_3words", r)
     ex = args_execs(ctx)
     ctx.notes["argument_vectors"] = len(ex)
     check_executions(ctx, binary, ex, "args", "GetoptTrace", "GetoptTrace.cfg", nproc=4)
@@ -270,3 +301,27 @@ def replay(ctx, path):
         if sel:
             check_executions(ctx, binary, sel, "replay" + op, mod, mod + ".cfg")
     return vlib.finish(ctx, "model_checking", "replay of one op sequence")
+
+
+def selftest(ctx):
+    """Binding self-test of the trace specifications: an unmodified trace is accepted, a trace with one corrupted
+    observation (option character, echoed argument, exit code) is rejected."""
+    binary = build()
+    cases = [("args x2d61 x66", "GetoptTrace", '"c":97', '"c":98'),
+             ("cmd 1 x612061", "CmdLineTrace", '"cargs":[[97],[97]]', '"cargs":[[97,32,97]]'),
+             ("spawn 1 1 1 2 0 5 0 x61", "SpawnTrace", '"xc":2', '"xc":0')]
+    ok = True
+    for op, module, old, new in cases:
+        tp = os.path.join(ctx.work, "selftest.ndjson")
+        vlib.run_driver(binary, [[op]], tp, args=[vlib.BUILD])
+        text = open(tp).read()
+        r, mism, done = vlib.validate_trace(SPECDIR, module, module + ".cfg", tp)
+        good = done and not mism and old in text
+        with open(tp, "w") as f:
+            f.write(text.replace(old, new, 1))
+        r, mism2, done2 = vlib.validate_trace(SPECDIR, module, module + ".cfg", tp)
+        bad = done2 and len(mism2) == 1
+        vlib.log("selftest %-12s original accepted=%s corrupted rejected=%s" % (module, good, bad))
+        ok = ok and good and bad
+    _sweep_scratch()
+    return 0 if ok else 2
